@@ -320,8 +320,9 @@ class Program(object):
                 return t
         return None
 
-    def reach(self, root, through_opaque=False):
-        """Named types reachable from type `root` (following everything)."""
+    def reach(self, root, through_opaque=False, through_methods=True):
+        """Named types reachable from type `root` (following everything; the signatures of member functions only
+        with through_methods)."""
         seen, out, todo = set(), [], [root]
         while todo:
             t = todo.pop()
@@ -333,7 +334,7 @@ class Program(object):
             if isinstance(t, Record) and t.opaque and not through_opaque:
                 continue
             todo.extend(t.children())
-            if isinstance(t, Record):
+            if isinstance(t, Record) and through_methods:
                 for m in t.methods:
                     todo.append(m.ftype)
         return out
@@ -345,8 +346,11 @@ class Program(object):
     def users_of(self, typ):
         """Exported interfaces from which `typ` is reachable."""
         out = []
+        # (data members, bases, parameters: not the signatures of member functions of the classes met on the way -
+        # a change reachable only through those is not certain to be attributed to the using interface)
         for i in self.exported_functions() + self.exported_variables():
-            if any(t is typ for t in self.interface_types(i)):
+            root = i.ftype if isinstance(i, Function) else i.type
+            if any(t is typ for t in self.reach(root, through_methods=False)):
                 out.append(i)
         return out
 
@@ -1054,7 +1058,8 @@ class Gen(object):
         recs = [t for t in self.p.types if isinstance(t, Record) and t.name and not t.opaque]
         if len(recs) < 2:
             return
-        for _ in range(r.choice([0, 1, 1, 2, 3, 4])):
+        be = getattr(self.o, "back_edges", None)
+        for _ in range(r.randint(*be) if be else r.choice([0, 1, 1, 2, 3, 4])):
             i = r.randrange(len(recs) - 1)
             a, b = recs[i], recs[r.randrange(i + 1, len(recs))]
             hi = len(a.fields) - (1 if getattr(a, "flex", False) else 0)
